@@ -254,6 +254,44 @@ def x5(prog, ctx):
                      % (label, da[label], dt[label], da[label], -da[label], abs(da[label] + dt[label])))
 
 
+def x6(prog, ctx, tag="X6", canonical=True):
+    """Side-specific constant tables come in pairs (a polyA-side and a polyT-side list, a forward and a reverse table): the second must be
+    the mirror image of the first."""
+    from ..engine.reflect import dual_ident
+    n = 0
+    for rel, m in sorted(prog.modules.items()):
+        tables = {}
+        for st in ast.walk(m.tree):
+            if isinstance(st, ast.Assign) and len(st.targets) == 1 and isinstance(st.targets[0], ast.Name) \
+                    and isinstance(st.value, (ast.List, ast.Tuple, ast.Set)) and st.value.elts \
+                    and all(isinstance(e, ast.Attribute) for e in st.value.elts) \
+                    and not isinstance(getattr(st, "_parent", None), (ast.FunctionDef, ast.AsyncFunctionDef)):
+                owner = getattr(st, "_parent", None)
+                tables[(getattr(owner, "name", ""), st.targets[0].id)] = st
+        for (owner, name), st in sorted(tables.items()):
+            for cand in {dual_ident(name), dual_ident(name.lower()).upper() if name.isupper() else dual_ident(name)}:
+                if cand != name and (owner, cand) in tables and name < cand:
+                    other = tables[(owner, cand)]
+                    n += 1
+
+                    def mirrored(e):
+                        parts = src(e).split(".")
+                        parts[-1] = dual_ident(parts[-1])
+                        return ".".join(parts)
+                    left = sorted(mirrored(e) for e in st.value.elts)
+                    right = sorted(src(e) for e in other.value.elts)
+                    if left != right:
+                        ctx.fail(tag, other, (owner + "." if owner else "") + cand, "%s vs mirrored %s" % (right, left),
+                                 "the table %s is not the mirror image of its twin %s: it holds %s where the mirror image of the twin is %s - the "
+                                 "two strands / sides are handled with different event sets" % (cand, name, right, left))
+                    else:
+                        ctx.ok(tag, "%s:%d" % (rel, other.lineno), "%s is the mirror image of %s" % (cand, name))
+    if canonical:
+        from . import c18 as _c18
+        _c18.k3(prog, ctx, tag=tag)
+    return n
+
+
 def run(prog, ctx):
     ctx.rule("X3", "a parameter named *polya_pos / *polyt_pos that is used in arithmetic or an ordering comparison is protected from the "
                    "sentinel -1 by a dominating `== -1` exit / `!= -1` test in the function, or at every call site")
@@ -263,6 +301,9 @@ def run(prog, ctx):
     x2(prog, ctx)
     from . import x1_pairs
     x1_pairs.run(prog, ctx)
+    ctx.rule("X6", "twin constant tables: a module- or class-level table of enum members whose name has a dual (polya/polyt, left/right, ...) "
+                   "equals the twin with every member's side dualised; CANONICAL_REV_SITES is the reverse complement of CANONICAL_FWD_SITES")
+    x6(prog, ctx)
     ctx.rule("X5", "offset of the reported tail position from the tail itself, in linear form, for find_polya_tail and find_polyt_head and both of "
                    "their branches (tail in the clipped part / inside the aligned part), under pysam's coordinate conventions: the polyT offset "
                    "must be the negated polyA offset")
